@@ -1,4 +1,5 @@
 // C12: decode errors are present, bounded and point into the input.
+import { sizeCases } from "./sizes.mjs";
 import { Reporter, TIER, valueKind, sha } from "./common.mjs";
 import { familyPrograms, forEachCompiledParser, bFamily } from "./cases.mjs";
 import { render, skeleton } from "./spec.mjs";
@@ -195,6 +196,23 @@ export async function run() {
         if (n && samples.length < 4 && stats.evaluations % 40009 === 17) samples.push({ type: typeText, value: toSrc(vx), errors: JSON.parse(safeStringify(parser.safeParse(build(vx), opts).errors)) });
       }
   });
+  // size family: a rejected long input (150 000 items, all bad / the last one bad) gets 1..10 errors and a rendering
+  {
+    const { parsers, cases, text } = await sizeCases();
+    for (const c of cases) {
+      if (c.expect) continue;
+      stats.sizeCases = (stats.sizeCases || 0) + 1;
+      const detail = { engine: "E-src", program: text, parser: c.parser, type: c.type, value: c.src };
+      let sp;
+      try {
+        sp = parsers[c.parser].safeParse(c.make());
+      } catch (e) {
+        rep.violation(`C12 long input : safeParse threw ${e?.constructor?.name} : ${c.shape}`, `${c.type} on ${c.src}: ${String(e?.message).slice(0, 80)}`, detail);
+        continue;
+      }
+      if (sp.success || !(sp.errors.length >= 1 && sp.errors.length <= 10)) rep.violation(`C12 count : long input : ${sp.success ? "accepted" : sp.errors.length + " errors"} : ${c.shape}`, `${c.type} on ${c.src}`, detail);
+    }
+  }
   const bf = bFamily(1);
   const emptyProg = new Prog([]);
   for (const { parser, spec, src } of bf.items) {
